@@ -517,7 +517,6 @@ func runPartition(c *core.Ctx) []core.Obligation {
 	return obs
 }
 
-
 // invertCasesExclusive (after round-7 seed C13-r7m2, the `return` that ends the empty-polygon case of Polygon.Invert
 // dropped): Invert has two special cases that replace the whole receiver (empty -> full, full -> empty). They undo
 // each other, so no path may run both: once *p has been overwritten as a whole, no second whole-value store to *p is
